@@ -12,6 +12,8 @@
 (*                            (explicit, or the default of the logical     *)
 (*                            file, or none until an origin is added)      *)
 (*   LogicalFile.add_origin   numbering and back-filling                   *)
+(*   item.name = ... /        mutation after creation: the copy number of  *)
+(*   item.origin_reference =  a renamed item, the origin chosen later      *)
 (*   high_compatibility_mode  save / restore of the global flag            *)
 (*   DLISFile.generator       what a write emits, per logical file         *)
 (*                                                                         *)
@@ -36,7 +38,10 @@ CONSTANTS
   RefFrom, RefTo,      \* objects of class RefFrom may refer to an existing object of class RefTo ("NONE": no references modelled)
   HeaderShare,         \* TRUE: a logical file may be given a ready-made header that lives in the header set of an earlier one
   OkSet,               \* outcomes of the constructor modelled: BOOLEAN, or {TRUE} to enumerate accepted calls only
-  ForeignRefCheck, HeaderSetCheck   \* check_objects refuses foreign references / crowded header sets (TRUE on this tree)
+  ForeignRefCheck, HeaderSetCheck,  \* check_objects refuses foreign references / crowded header sets (TRUE on this tree)
+  Mutations,           \* TRUE: items may be renamed / given another origin reference after creation (item.name = ..., item.origin_reference = ...)
+  CopyRule             \* "firstfree": a new or renamed item takes the first copy number no same-named item of its set carries (this tree);
+                       \* "count": the number of same-named items (before F25 / F28; equal as long as nothing is renamed)
 
 VARIABLES
   nlf,     \* number of logical files
@@ -77,7 +82,12 @@ NextOriginRef(orgs, explicit) ==
   IF explicit # 0 THEN explicit ELSE FirstFree(Len(orgs), used)
 OriginClash(orgs, explicit) == explicit # 0 /\ \E i \in DOMAIN orgs : items[orgs[i]].origin = explicit
 
-CopyNumber(key, name) == Cardinality({ i \in DOMAIN SetItems(key) : items[SetItems(key)[i]].name = name })
+(* EFLRItem._compute_copy_number (at creation: self = 0) and EFLRItem.__setattr__('name') (self = the renamed item) *)
+SameNamed(key, name, self) == { SetItems(key)[i] : i \in { j \in DOMAIN SetItems(key) : SetItems(key)[j] # self /\ items[SetItems(key)[j]].name = name } }
+CopyNumberFor(key, name, self) ==
+  IF CopyRule = "count" THEN Cardinality(SameNamed(key, name, self))
+  ELSE FirstFree(0, { items[i].copy : i \in SameNamed(key, name, self) })
+CopyNumber(key, name) == CopyNumberFor(key, name, 0)
 
 Proj == [i \in DOMAIN items |-> << items[i].copy, items[i].origin >>]
 
@@ -139,6 +149,25 @@ AddItem(lf, cls, name, sn, explicit, ok, tgt) ==      \* tgt: the object passed 
         /\ Log([k |-> "add", lf |-> lf, cls |-> cls, name |-> name, sn |-> sn, ref |-> explicit, ok |-> ok, tgt |-> tgt], items', hc)
   /\ UNCHANGED << nlf, hc, hdr >>
 
+(* item.name = n: the cached OBNAME is dropped; a *new* name brings a copy number free among the items of that name *)
+Rename(id, n) ==
+  /\ Mutations /\ Len(hist) < MaxCalls /\ id \in DOMAIN items
+  /\ LET it == items[id]
+         cp == IF n = it.name THEN it.copy
+               ELSE IF CopyRule = "count" THEN it.copy      \* (before F25: the copy number was computed at construction only)
+               ELSE CopyNumberFor(Key(it.cls, it.sn), n, id)
+     IN items' = [items EXCEPT ![id] = [it EXCEPT !.name = n, !.copy = cp]]
+  /\ Log([k |-> "rename", id |-> id, name |-> n], items', hc)
+  /\ UNCHANGED << nlf, reg, view, hc, hdr >>
+
+(* item.origin_reference = r: from now on the reference is the caller's choice *)
+SetOriginRef(id, r) ==
+  /\ Mutations /\ Len(hist) < MaxCalls /\ id \in DOMAIN items /\ r # 0
+  /\ items[id].cls # "ORIGIN"      \* (re-numbering an ORIGIN object itself leaves the objects that follow it behind: not modelled, see DESIGN 9)
+  /\ items' = [items EXCEPT ![id] = [@ EXCEPT !.origin = r, !.explicit = TRUE]]
+  /\ Log([k |-> "set_origin", id |-> id, ref |-> r], items', hc)
+  /\ UNCHANGED << nlf, reg, view, hc, hdr >>
+
 EnterHC ==
   /\ Len(hist) < MaxCalls /\ Len(hc.stack) < 2
   /\ hc' = [flag |-> TRUE, stack |-> Append(hc.stack, hc.flag)]
@@ -155,6 +184,8 @@ Next ==
   \/ \E sh \in 0..MaxLf : AddLogicalFile(sh)
   \/ \E lf \in 1..MaxLf, n \in Names, sn \in SetNames, r \in OriginRefs : AddOrigin(lf, n, sn, r)
   \/ \E lf \in 1..MaxLf, c \in Classes, n \in Names, sn \in SetNames, r \in ItemRefs, ok \in OkSet, t \in 0..MaxCalls : AddItem(lf, c, n, sn, r, ok, t)
+  \/ \E id \in 1..MaxCalls, n \in Names : Rename(id, n)
+  \/ \E id \in 1..MaxCalls, r \in ItemRefs : SetOriginRef(id, r)
   \/ EnterHC \/ LeaveHC(TRUE) \/ LeaveHC(FALSE)
 
 Spec == Init /\ [][Next]_vars
@@ -226,11 +257,17 @@ RejectedIsNoOp == [][ (hist' # hist /\ "ok" \in DOMAIN hist'[Len(hist')].op /\ ~
 (* C17: the flag is TRUE exactly inside a context; leaving everything restores FALSE *)
 FlagDiscipline == (hc.stack = << >> => ~hc.flag) /\ (hc.stack # << >> => hc.flag)
 
-(* C07: copy numbers of same-named objects of one set are 0, 1, 2, ... in creation order *)
+(* C07: copy numbers of same-named objects of one set are 0, 1, 2, ... in creation order - as long as nothing was renamed; *)
+(* with renames they are still pairwise different                                                                        *)
+NoRenameYet == \A k \in DOMAIN hist : hist[k].op.k # "rename"
 CopyNumbersDense ==
+  NoRenameYet =>
   \A r \in DOMAIN reg : \A n \in Names :
      LET same == SelectSeq(reg[r].items, LAMBDA i : items[i].name = n) IN
        \A k \in DOMAIN same : items[same[k]].copy = k - 1
+CopyNumbersDistinct ==
+  \A r \in DOMAIN reg : \A a, b \in DOMAIN reg[r].items :
+     a # b /\ items[reg[r].items[a]].name = items[reg[r].items[b]].name => items[reg[r].items[a]].copy # items[reg[r].items[b]].copy
 
 (* C15: the number of records announced to the progress bar (SizedGenerator) covers the records the generator yields: *)
 (* per logical file the header and one record per set of its view (data records are counted one by one on both sides) *)
